@@ -1849,7 +1849,8 @@ func (ctx Ctx) stmtInBlock(s ast.Stmt, usage ExprValUsage) (coq.Binding, bool) {
 	case *ast.IfStmt:
 		return ctx.ifStmt(s, []ast.Stmt{}, usage), true
 	case *ast.BlockStmt:
-		return coq.NewAnon(ctx.blockStmt(s, usage)), true
+		// the parentheses end the scope of the block's bindings
+		return coq.NewAnon(coq.ParenExpr{X: ctx.blockStmt(s, usage)}), true
 	}
 	// For everything else, we generate the statement and possibly tell the caller
 	// that this is not yet finalized.
